@@ -15,7 +15,32 @@ use crate::pushvm::{from_real, parse_genes, render_prog, to_real, to_real_gene, 
 
 fn convert(genes: &[Gene]) -> Result<Vec<PushProgram>, String> {
     let real: Vec<_> = genes.iter().map(to_real_gene).collect();
-    catch(|| Vec::<PushProgram>::from(Plushy::new(real))).map_err(|p| p.to_string())
+    // the genome reaches the translation through every way of building a Plushy (chosen by the
+    // genome's length): from a vector, from iterators without a usable size hint, from an
+    // iterator whose honest upper size bound is astronomically large, through FromIterator
+    catch(|| {
+        let n = real.len();
+        let plushy: Plushy = match n % 5 {
+            0 => Plushy::new(real),
+            1 => Plushy::new(real.into_iter().filter(|_| true)),
+            2 => {
+                let mut it = real.into_iter();
+                Plushy::new(std::iter::from_fn(move || it.next()).take(usize::MAX))
+            }
+            3 => real.into_iter().collect(),
+            _ => {
+                let tail = real[n / 2..].to_vec();
+                let mut head = real;
+                head.truncate(n / 2);
+                Plushy::new(head.into_iter().chain(tail).map_while(Some).take(usize::MAX - 1))
+            }
+        };
+        if plushy.get_genes().len() != n {
+            panic!("a Plushy built from {n} genes holds {}", plushy.get_genes().len());
+        }
+        Vec::<PushProgram>::from(plushy)
+    })
+    .map_err(|p| p.to_string())
 }
 
 /// Depth-first flattening of the real program, iteratively.
